@@ -70,9 +70,10 @@ end Abra.Completion
 
 namespace Abra.SpanTree
 
-/-- Corollary of C35's totality: on every rendered file the model knows, both AST searches return an answer
-    (a node or nothing) at every offset — there is no offset, inside or past the file, at which they are
-    undefined; past the last identifier / node the answer is `none`. -/
+/-- Whenever the model has a plan for the rendered file (`identPlan` / `innerPlan` succeed, i.e. every node has a
+    shape the model knows), the corresponding search returns an answer (a node or nothing) at every offset:
+    there is no offset, inside or past the file, at which it is undefined.  (What the answer is past the end
+    is `C34_findNode_none_past_end`.) -/
 theorem C34_findNode_total (file : Ast) (off : Nat) :
     ((identPlan file).isSome → ∃ r, findIdentifier file off = some r) ∧
     ((innerPlan file).isSome → ∃ r, findInnermost file off = some r) := by
